@@ -322,6 +322,18 @@ class Impl:
             skip_missing=c["skip"], weight=self.weight(c),
             args=tuple(Val(a) for a in c["args"]) if c["args"] else None,
             kwargs={"k%d" % k: Val(v) for k, v in c["kwargs"]} if c["kwargs"] else ({} if jid % 3 == 0 else None))
+        # every other job is scheduled with ONE tags set and ONE kwargs dict that the caller reuses (refilled for
+        # each call, mutated after it): a job that kept a reference would change with the next job
+        if jid % 2 == 0:
+            if not hasattr(self, "shared_tags"):
+                self.shared_tags, self.shared_kwargs = set(), {}
+            self.shared_tags.clear()
+            self.shared_tags.update(kw["tags"])
+            kw["tags"] = self.shared_tags
+            if isinstance(kw["kwargs"], dict):
+                self.shared_kwargs.clear()
+                self.shared_kwargs.update(kw["kwargs"])
+                kw["kwargs"] = self.shared_kwargs
         # the objects supplied (the dict itself is mutated by the harness later, its values are not)
         self.sent[jid] = (kw["args"], dict(kw["kwargs"]) if kw["kwargs"] else None)
         if not c["delay"]:
